@@ -268,6 +268,19 @@ def gen_cases(tier, rng):
         variants(s, st, "pair", thorough, False)
     for s, st in random_soup(rng, 1500 if not thorough else 60000):
         variants(s, st, "soup", len(s) <= 40, True)
+    # one case per code point, in every kind of position (data, the three attribute value kinds, names, comment, PI,
+    # CDATA): the fast path (pop_except_from) and the slow path (get_preprocessed_char) must agree on every code point
+    from props import tokcommon as _tc
+    for cp in _tc.codepoints(tier):
+        c = chr(cp)
+        s = "a%sb<a d=t%su e='%s' f=\"%s\"><t%su><!--%s--><?p%sq %s?><![CDATA[%s]]></a%s>" % ((c,) * 10)
+        add(case([s]), "cp")
+        add(case([s], exact=1), "cp-exact")
+        add(tree_case([s]), "cp-tree")
+        add(tree_case([s], exact=1), "cp-tree")
+        if cp in _tc.SPECIAL_CPS or cp < 0x100:
+            add(case(list(s)), "cp-part")
+            add(tree_case(list(s)), "cp-tree")
     # script elements: the tree builder answers Script at each </script>, the driver must resume until the chunk is used up
     for s in ["<a><script>x</script>y<b/>z</a>", "<script/>t<r/>", "<r><script></script><script>s</script>u</r>",
               "<script>1</script><script>2</script>w", "<a><script>x</script>", "<a><script>x</script>\r\n<!--c-->&amp;<c/></a>"]:
